@@ -60,7 +60,8 @@ def main():
             continue
         ok = any(rc == 1 for _, rc, _, _ in out)
         caught += ok
-        print("%-40s %s" % (m["id"], "CAUGHT" if ok else "SURVIVED"))
+        und = any(rc == 2 for _, rc, _, _ in out)
+        print("%-40s %s" % (m["id"], "CAUGHT" if ok else ("UNDECIDED" if und else "SURVIVED")))
         for prop, rc, viol, last in out:
             print("      %s exit=%d %s" % (prop, rc, (viol[0][:160] if viol else last)))
     print("caught %d / %d" % (caught, len(results)))
